@@ -42,6 +42,7 @@ fn hex(s: &str) -> String {
 thread_local! {
     static TRACE: RefCell<Option<Vec<String>>> = const { RefCell::new(None) };
     static INTERRUPT_AT: RefCell<Vec<usize>> = const { RefCell::new(Vec::new()) };
+    static ENV_INTERRUPT_AT: std::cell::OnceCell<Vec<usize>> = const { std::cell::OnceCell::new() };
 }
 
 fn dest_sexp(dest: &LetDestination) -> String {
@@ -355,6 +356,17 @@ pub(crate) fn trace_tick(
 ) {
     INTERRUPT_AT.with(|ia| {
         if ia.borrow().contains(&env.ticks) {
+            session.interrupted.store(true, Ordering::SeqCst);
+        }
+    });
+    // Sessions started from the CLI (e.g. `reftest-json-session`) take
+    // their interrupt schedule from the environment.
+    ENV_INTERRUPT_AT.with(|ia| {
+        let ia = ia.get_or_init(|| match std::env::var("GARDEN_VERIF_INTERRUPT_AT") {
+            Ok(s) => s.split(',').filter_map(|x| x.trim().parse().ok()).collect(),
+            Err(_) => vec![],
+        });
+        if ia.contains(&env.ticks) {
             session.interrupted.store(true, Ordering::SeqCst);
         }
     });
